@@ -12,6 +12,7 @@ Line-protocol driver for C06 (ledger conservation).
   tx op <src> <dataOk> <k> (<tgt> <amountHex>)*k
   tx ct <eth> <nonceOk> <jsonOk> <src> <tgt|-> <gasLimitHex> <valueHex> <nz> <z> <initId|-> <gasUsed>
   tx lock <src> <n> <registryOk>
+  tx node <src> <registryOk>           OperatorNode transaction (type 7)
   exec                                 run the queued transactions as one block
   refund <k> (<addr> <dec>)*k          RefundManager.CheckAndMove over that escrow list
   amt <amountHex>                      utility.StrToBigInt alone
@@ -96,6 +97,7 @@ def txOutside : Tx → Bool
   | .operator _ _ ts => ts.any (fun p => p.2 == Amount.outside)
   | .contract t => strToBigInt t.value == Amount.outside || t.nz + t.z ≥ 2 ^ 20
   | .lock _ _ _ => false
+  | .node _ _ => false
 
 instance : BEq Amount := ⟨fun a b => decide (a = b)⟩
 
@@ -125,6 +127,10 @@ def parseTx (ds : DS) : List String → Option Tx
     let n ← nat? n
     let ok ← bool? ok
     if n ≥ 2 ^ 53 then none else pure (.lock src (stakeOf n) ok)
+  | ["node", src, ok] => do
+    let src ← addr? src
+    let ok ← bool? ok
+    pure (.node src ok)
   | _ => none
 
 def showState (ds : DS) : String :=
